@@ -78,6 +78,13 @@ func configs04(tier string) []xplore.Config {
 		out = append(out, xplore.Config{Name: fmt.Sprintf("W(t1)=%s | %s + %s", scriptName(s1), subs[0], subs[0]), Bound: bound,
 			Data: cfg04{writers: []writer{{"t1", s1}}, subs: []subSpec{subs[0], subs[0]}}})
 	}
+	// a subscriber attaching at any point of a Reset; subscription on a/... so
+	// that the regenerated metadata stays out of the queue and the full bound
+	// is affordable in the quick tier too (name avoids the Reset rule below)
+	for _, sc := range [][]wop{{{"reset", ""}}, {{"upd", "a/c"}, {"reset", ""}}} {
+		out = append(out, xplore.Config{Name: fmt.Sprintf("attach during W(t1)=%s | %s", strings.ReplaceAll(scriptName(sc), "reset", "Reset"), subs[0]), Bound: bound,
+			Data: cfg04{writers: []writer{{"t1", sc}}, subs: []subSpec{subs[0]}}})
+	}
 	// Reset regenerates a dozen metadata leaves and dominates the cost: one
 	// deviation less for scripts containing it in the quick tier; the thorough
 	// tier gives the cheap scripts one deviation more.
@@ -98,6 +105,34 @@ func configs04(tier string) []xplore.Config {
 			out[i].Bound = 1
 		case tier == "thorough" && !hasReset && strings.Count(out[i].Name, ";") < 2 && !strings.Contains(out[i].Name, "W(t2)") && !strings.Contains(out[i].Name, " + "):
 			out[i].Bound = 3
+		}
+	}
+	return out
+}
+
+// configs01: the relay core of the collector (cache feed -> Subscribe server
+// -> one client) under schedules, for C01: a client that subscribes to a
+// target (or to all targets) while that target's update/delete stream is being
+// relayed must end up with the target's final state. Same oracle as C04, a
+// subset of its programs (no Reset: C01 is about what the target streams).
+func configs01(tier string) []xplore.Config {
+	alpha := []wop{{"upd", "a/b"}, {"upd", "a/c"}, {"del", "a/b"}, {"del", "a"}, {"atomic", "a/k"}}
+	stream := pb.SubscriptionList_STREAM
+	subs := []subSpec{{target: "t1", paths: []string{"*"}, mode: stream}, {target: "*", paths: []string{"a"}, mode: stream}}
+	bound, maxLen := 2, 2
+	if tier == "thorough" {
+		bound, maxLen = 3, 3
+	}
+	var out []xplore.Config
+	for _, sc := range scripts04(maxLen, alpha) {
+		for _, sp := range subs {
+			for _, rev := range []bool{false, true} {
+				name := fmt.Sprintf("relay W(t1)=%s | %s", scriptName(sc), sp)
+				if rev {
+					name += " [newest-first]"
+				}
+				out = append(out, xplore.Config{Name: name, Bound: bound, Data: cfg04{writers: []writer{{"t1", sc}}, subs: []subSpec{sp}, reverse: rev}})
+			}
 		}
 	}
 	return out
